@@ -12,6 +12,7 @@ pub mod c11;
 pub mod c12;
 pub mod c13;
 pub mod c14;
+pub mod c15;
 pub mod c16;
 pub mod c17;
 pub mod c18;
@@ -36,6 +37,7 @@ pub fn run(id: &str, tier: Tier) -> Option<Report> {
         "C12" => c12::run(tier),
         "C13" => c13::run(tier),
         "C14" => c14::run(tier),
+        "C15" => c15::run(tier),
         "C16" => c16::run(tier),
         "C17" => c17::run(tier),
         "C18" => c18::run(tier),
@@ -58,6 +60,7 @@ pub fn replay(id: &str, path: &str) -> i32 {
     println!("{}", doc["summary"].as_str().unwrap_or(""));
     match (id, replay["kind"].as_str()) {
         ("C01" | "C06" | "C16", Some("pipeline")) => behave::replay_pipeline(replay, behave::env_none(), behave::env_none()),
+        ("C15", Some("resolve" | "convert")) => c15::replay(replay),
         _ => {
             println!("no dedicated replay for this record; the summary above holds the complete case");
             2
